@@ -62,7 +62,7 @@ def _swapcase(self):
         return B.LazyIntSymbolicStr(out)
 
 
-def apply(reals=False, opaque=False):
+def apply(reals=False, opaque=False, sqrt_free=False):
     if 'ascii' not in _applied:
         B.LazyIntSymbolicStr.lower = _lower
         B.LazyIntSymbolicStr.upper = _upper
@@ -89,4 +89,21 @@ def apply(reals=False, opaque=False):
         _SS.cap_result_at_unknown = lambda self: None
         B._PYTYPE_TO_WRAPPER_TYPE[float] = ((B.RealBasedSymbolicFloat, 1.0),)
         _applied.add('reals')
+    if sqrt_free and 'sqrt_free' not in _applied:
+        # x ** 0.5 of a symbolic number returns a fresh non-negative real instead of concretising x.
+        # Over-approximation: sound for properties that do not depend on the root's value.
+        from crosshair.statespace import context_statespace as _cs
+        _orig_pow = B.SymbolicNumberAble.__pow__
+
+        def _pow(self, other, mod=None):
+            if mod is None and isinstance(other, float) and other == 0.5:
+                with NoTracing():
+                    space = _cs()
+                    r = z3.Real('sqrt_' + str(space.uniq()))
+                    space.add(r >= 0)
+                    return B.RealBasedSymbolicFloat(r)
+            return _orig_pow(self, other, mod)
+        B.SymbolicNumberAble.__pow__ = _pow
+        B.RealBasedSymbolicFloat.__pow__ = _pow
+        _applied.add('sqrt_free')
     return sorted(_applied)
